@@ -106,7 +106,8 @@ SplitOK(v) == v.sb <= v.cb /\ v.l2 < Pow2(v.cb - 3) /\ v.inoff < Pow2(v.cb)
 ---------------------------------------------------------------------------
 (* Header: fields, extensions (known, unknown, odd lengths) and backing    *)
 (* file name must survive parse -> serialise -> parse                      *)
-ExtKinds == {"fmt", "feat1", "feat3", "unk0", "unk5", "unk8", "unk13"}
+\* ("featmax": a feature name that fills its 46 bytes, no terminator)
+ExtKinds == {"fmt", "feat1", "feat3", "featmax", "unk0", "unk5", "unk8", "unk13"}
 ExtLists == {<<>>} \cup { <<a>> : a \in ExtKinds } \cup { <<a, b>> : a \in ExtKinds, b \in ExtKinds }
 HeaderVectors ==
   { [t |-> "header", cb |-> cb, ro |-> ro, exts |-> el, backing |-> bk]
